@@ -236,6 +236,24 @@ func genC15(seed int64, tier string) []caseOut {
 				add(kind+":empty-payload", sg.jwk, parts[0]+".."+parts[2], false, "")
 				add(kind+":json-serialization", sg.jwk, `{"payload":"`+parts[1]+`"}`, false, "")
 				add(kind+":header-not-base64", sg.jwk, "*"+compact, false, "")
+				// bytes after the complete header object: not a JSON text
+				hb, _ := b64dec(parts[0])
+				for _, tl := range [][2]string{{"second-object", `{"alg":"none"}`}, {"garbage", "garbage"}, {"bracket", "]"}, {"nul", "\x00"}, {"comma", ","}} {
+					add(kind+":header-trailing-"+tl[0], sg.jwk, b64(append(append([]byte{}, hb...), tl[1]...))+"."+parts[1]+"."+parts[2], false, "")
+				}
+				// the unencoded-payload header (RFC 7797): signed over the raw payload, carried base64url-encoded
+				if size < 100 {
+					if js, e := jwsutil.NewJWS(jws.Headers{"b64": false}, nil, payload, sg); e == nil {
+						if c, e := js.SerializeCompact(false); e == nil {
+							add(kind+":b64-false-header", sg.jwk, c, true, string(payload))
+						}
+					}
+					if js, e := jwsutil.NewJWS(jws.Headers{"b64": true}, nil, payload, sg); e == nil {
+						if c, e := js.SerializeCompact(false); e == nil {
+							add(kind+":b64-true-header", sg.jwk, c, true, string(payload))
+						}
+					}
+				}
 				// unsupported key type
 				rsa := *sg.jwk
 				rsa.Kty = "RSA"
